@@ -200,7 +200,9 @@ def worker_main(pid, shard, nshards, seed, tier, outpath):
                 result['judged'] += out.judged
                 result['discarded'] += out.discarded
                 counters.update(out.counters)
-                if out.structure is not None and out.nontrivial:
+                if getattr(out, 'structures', None):
+                    structures.update(out.structures)
+                elif out.structure is not None and out.nontrivial:
                     structures.add(out.structure)
                 if out.sample is not None and len(result['samples']) < 3:
                     result['samples'].append(out.sample)
